@@ -23,7 +23,7 @@ CAPS = {"quick": (900, 12), "thorough": (3600, 16)}
 SUITES = {
     "C01": {
         "quick": [("km", ["st_insert__u4f", "st_insert__s8_4a", "st_insert__s8_e", "st_insert__s4f_e",
-                          "st_remove__s8_4a", "st_remove__s8_8g0", "st_raw_replace_none__s8_8g0"])],
+                          "st_remove__s8_4a", "st_remove__s8_8g0", "st_raw_replace_with__s8_8g0"])],
         "thorough": [("km", ["st_*"])],
     },
 }
